@@ -43,7 +43,7 @@ CHECKS = {
  "C04": dict(
    technique="TLC-enumerated token sequences (XtTokens) plus adversarial and mutated inputs executed in crash-isolated workers and through both binaries; every recorded call validated by TLC against the totality contract XtTotal",
    category="model_checking",
-   text="TLC enumerates every sequence of up to 3 (thorough: 4) tokens over a 24-token alphabet per format; together with adversarial shapes (huge length prefixes, alias bombs, deep nesting, boundary-size maps) and structure-aware mutations they are translated under every source selection, all targets, slice and reader in an isolated worker with a deadline, and a sample through the debug and release binaries; TLC accepts the record stream only if every call ends in success or an error value (no panic, signal or timeout). The cross-module preconditions of the unwrap/expect/index sites are invariants of XtTranscode, XtInput, XtMsgpack and XtChunker (C11, C09, C18, C17).",
+   text="TLC enumerates every sequence of up to 3 (thorough: 4) tokens over a 26-token alphabet per format; together with adversarial shapes (huge length prefixes, alias bombs, deep nesting, boundary-size maps) and structure-aware mutations they are translated under every source selection, all targets, slice and reader in an isolated worker with a deadline, and a sample through the debug and release binaries; TLC accepts the record stream only if every call ends in success or an error value (no panic, signal or timeout). The cross-module preconditions of the unwrap/expect/index sites are invariants of XtTranscode, XtInput, XtMsgpack and XtChunker (C11, C09, C18, C17).",
    note="Exhaustive only for the token sequences up to the bound; everything else is generated. Deep nesting is covered by C18's runs.",
    design_ref="DESIGN.md 6 (C04)"),
  "C18": dict(
